@@ -35,7 +35,8 @@ Inductive item :=
                                    /healthcheck): no effect on the tables expected *)
 
 (* tables as the harness reads them from the App, sorted by key *)
-Definition snap := (list (bytes * drule) * list (bytes * option (list bytes)))%type.
+(* [None]: the tables were not read after this item (pipelined sessions read them once, at the end) *)
+Definition snap := option (list (bytes * drule) * list (bytes * option (list bytes)))%type.
 
 (* [probes]: every command sent and every reply seen in the session, with what Go's json.Valid said about
    it - the checker [wf] the theorems speak about must agree with json.Valid on all of them *)
@@ -52,8 +53,12 @@ Definition feeds_eqb (a b : option (list bytes)) : bool := option_eqb (list_eqb 
 Definition pair_eqb {V} (e : V -> V -> bool) (a b : bytes * V) : bool := beqb (fst a) (fst b) && e (snd a) (snd b).
 
 Definition snap_ok (s : st) (n : snap) : bool :=
-  list_eqb (pair_eqb drule_eqb) (sort_keys (dests s)) (fst n) &&
-  list_eqb (pair_eqb feeds_eqb) (sort_keys (streams s)) (snd n).
+  match n with
+  | None => true
+  | Some n =>
+      list_eqb (pair_eqb drule_eqb) (sort_keys (dests s)) (fst n) &&
+      list_eqb (pair_eqb feeds_eqb) (sort_keys (streams s)) (snd n)
+  end.
 
 Definition ans_ok (a : answer) (o : obs) : bool :=
   match o, a with
@@ -89,7 +94,7 @@ Section Run.
     | [] => 0
     | (i, _) :: r =>
         let s' := fst (item_step s i) in
-        (if snap_ok s' (sort_keys (dests s), sort_keys (streams s)) then 0 else 1) + nchanges s' r
+        (if snap_ok s' (Some (sort_keys (dests s), sort_keys (streams s))) then 0 else 1) + nchanges s' r
     end.
 End Run.
 
